@@ -594,7 +594,24 @@ func (g *G) Tuples(m *rm.Model, n int, invalidShare float64) []rm.Tuple {
 	var out []rm.Tuple
 	for i := 0; i < n*3 && len(out) < n; i++ {
 		var t rm.Tuple
-		if g.Chance(invalidShare) {
+		if g.Chance(invalidShare) && g.Chance(0.4) {
+			// a leftover of an earlier model that differed only in a condition: the shape of an allowed
+			// tuple with the condition dropped, added or exchanged
+			d := Pick(g, direct)
+			r := Pick(g, d.rel.Restrictions)
+			t = rm.Tuple{Obj: d.typ + ":" + Pick(g, objIDs), Rel: d.rel.Name, User: g.userFor(r)}
+			if r.Cond == "" && len(m.Conds) > 0 {
+				t.Cond = Pick(g, m.Conds).Name
+				t.Ctx = g.condCtx(m, t.Cond, true)
+			} else if r.Cond != "" && len(m.Conds) > 1 && g.Chance(0.3) {
+				for _, c := range m.Conds {
+					if c.Name != r.Cond {
+						t.Cond = c.Name
+						t.Ctx = g.condCtx(m, t.Cond, true)
+					}
+				}
+			}
+		} else if g.Chance(invalidShare) {
 			d := Pick(g, all)
 			t = rm.Tuple{Obj: d.typ + ":" + Pick(g, objIDs), Rel: d.rel.Name}
 			// a user of an arbitrary shape
